@@ -507,6 +507,46 @@ def translate():
     L.append(f"def lclFlagsMask : Nat := {mask_of('LclFlags')}")
     L.append("end Insim.Gen.Packets")
     changed = write_if_changed(os.path.join(GEN, "Packets.lean"), "\n".join(L) + "\n")
+    # names of enumerants / flag constants per field, normalised (lower case, alphanumerics only): used by C02
+    def nn(x):
+        return re.sub(r"[^a-z0-9]", "", x.lower())
+    NL = ["-- GENERATED by translate/packets.py on every run. Do not edit.",
+          "import Insim.Base.Bytes", "namespace Insim.Gen.PacketNames", "open Insim", "",
+          "/-- (type number, field path, [(normalised enumerant / flag-constant name, value)]) -/",
+          "def rows : List (Nat × Bytes × List (Bytes × Nat)) := ["]
+    rws = []
+    plc_read_rows, plc_write_rows = pr, pw
+    def add_rows(tno, path, t):
+        if t["k"] == "enum":
+            rws.append(f"  ({tno}, {lean_name(path)}, [" + ", ".join(f"({lean_name(nn(n))}, {v})" for n, v in t["vals"]) + "])")
+        elif t["k"] == "flags" and t.get("set_of_vehicles"):
+            # the constants are private: the public meaning of a bit is the vehicle it is converted to / from
+            rd = {v: b for b, v in plc_read_rows}
+            wr = dict(plc_write_rows)
+            names = sorted(set(rd) | set(wr))
+            rws.append(f"  ({tno}, {lean_name(path)}, [" + ", ".join(f"({lean_name(nn(n))}, {rd[n]})" for n in names if rd.get(n) is not None and rd.get(n) == wr.get(n)) + "])")
+        elif t["k"] == "flags":
+            rws.append(f"  ({tno}, {lean_name(path)}, [" + ", ".join(f"({lean_name(nn(n))}, {v})" for n, v in t["consts"]) + "])")
+    for l in ls:
+        for f in l["fields"]:
+            add_rows(l["type_no"], f["path"], f["ty"])
+        if l["tail"] and l["tail"]["k"] == "vec":
+            for f in l["tail"]["elt"]:
+                add_rows(l["type_no"], l["tail"]["path"] + "." + f["path"], f["ty"])
+    # IS_SMALL's sub-typed values (hand-written codec): the flag / enum types its variants carry
+    small_src = D.files.get("insim/src/insim/small.rs", "")
+    for var, ty in re.findall(r"^\s*(\w+)\((\w+)\),", block_after(small_src, r"pub\s+enum\s+SmallType\s*\{", "insim/src/insim/small.rs:SmallType"), re.M):
+        path = "subt." + var.lower()
+        if ty in D.flags:
+            add_rows(4, path, {"k": "flags", "consts": D.flags[ty]["consts"]})
+        elif ty in D.enums:
+            add_rows(4, path, {"k": "enum", "vals": D.enums[ty]["variants"]})
+        elif ty == "PlcAllowedCarsSet":
+            add_rows(4, path, {"k": "flags", "set_of_vehicles": True, "consts": []})
+    NL.append(",\n".join(rws))
+    NL.append("]")
+    NL.append("end Insim.Gen.PacketNames")
+    changed = write_if_changed(os.path.join(GEN, "PacketNames.lean"), "\n".join(NL) + "\n") or changed
     # PlcAllowedCarsSet: bit constant <-> vehicle, from both conversion functions
     plc_src = D.files.get("insim/src/insim/plc.rs", "")
     plc_impl = block_after(plc_src, r"impl\s+PlcAllowedCarsSet\s*\{", "insim/src/insim/plc.rs:PlcAllowedCarsSet")
